@@ -2,6 +2,7 @@ package payment
 
 import (
 	"math/big"
+	"time"
 
 	"github.com/vipnode/vipnode/v2/internal/verifapi"
 	"github.com/vipnode/vipnode/v2/pool/balance"
@@ -76,4 +77,56 @@ func VerifC03RealProxy() {
 	}
 	after, _ := cp.GetNodeBalance(client)
 	verifapi.Assert(new(big.Int).Add(&after.Credit, &after.Deposit).Cmp(want) == 0, "c03.proxy.charge-applied")
+}
+
+// VerifC03RealBig: a history of billed keep-alives through the real
+// contract-payment proxy with the REAL math/big code interpreted (concrete
+// amounts): the balance manager must not alter the numbers the store handed
+// out to it (a copied big.Int shares its digits), so after every keep-alive
+// the stored credit, the refusal decision and the reported balance are exactly
+// what the arithmetic says.
+func VerifC03RealBig() {
+	db := newVerifStore()
+	client := store.NodeID(verifapi.NodeID(0))
+	host := store.NodeID(verifapi.NodeID(1))
+	wal := store.Account(verifapi.Wallet(0))
+	now := time.Unix(1600000000, 0)
+	verifapi.SetNow(now)
+	db.SetNode(store.Node{ID: client, LastSeen: now})
+	db.SetNode(store.Node{ID: host, IsHost: true, LastSeen: now})
+	db.AddAccountNode(wal, client)
+	db.AddNodeBalance(client, big.NewInt(300))
+	db.AddNodeBalance(client, big.NewInt(200)) // 500, in a number with spare capacity (as every accumulated credit has)
+	deposit := int64([]int{0, 100}[verifapi.Choose("deposit", 2)])
+	cp := &contractPayment{store: db}
+	cp.balanceCache.Getter = func(a store.Account) (*big.Int, error) { return big.NewInt(deposit), nil }
+	mgr := balance.PayPerInterval(cp, time.Minute, big.NewInt(60)) // 1 unit per second and host
+	const min = 50
+	mgr.MinBalance = big.NewInt(min)
+	credit := int64(500)
+	last := now
+	steps := verifapi.Param("steps", 3)
+	for k := 0; k < steps; k++ {
+		dt := []int64{10, 200, 400}[verifapi.Choose("dt", 3)]
+		now = now.Add(time.Duration(dt) * time.Second)
+		verifapi.SetNow(now)
+		_, err := mgr.OnUpdate(store.Node{ID: client, LastSeen: last}, []store.Node{{ID: host, IsHost: true}})
+		last = now
+		credit -= dt
+		if lbe, ok := err.(balance.LowBalanceError); ok {
+			verifapi.Assert(credit+deposit < min, "c03.real.update-at-or-above-min-never-cut-off")
+			verifapi.Assert(lbe.CurrentBalance.Int64() == credit+deposit, "c03.real.error-reports-actual-balance")
+		} else {
+			verifapi.Assert(err == nil, "c03.real.no-other-error")
+			verifapi.Assert(credit+deposit >= min, "c03.real.update-below-min-cut-off")
+		}
+		stored, _ := db.GetAccountBalance(wal)
+		verifapi.Assert(stored.Credit.Int64() == credit, "c03.real.stored-credit-is-previous-minus-charge")
+		hb, _ := db.GetNodeBalance(host)
+		verifapi.Assert(hb.Credit.Int64() == 500-credit, "c03.real.host-credited-what-the-client-paid")
+		// a (re)connect at this point is judged on the same balance
+		cerr := mgr.OnClient(store.Node{ID: client})
+		verifapi.Assert((cerr != nil) == (credit+deposit < min), "c03.real.connect-judged-on-actual-balance")
+	}
+	verifapi.Reach("c03.real")
 }
